@@ -7,6 +7,7 @@ import WellenModel.Model.Slice
 import WellenModel.Model.Fst
 import WellenModel.Model.Load
 import WellenModel.Model.Detect
+import WellenModel.Model.Py
 /-
 `wmdriver`: reads one request per line on stdin, answers `<model reply>\t<spec reply>` per line.
 Imports only the import-free `Model` modules (the same definitions the theorems are about).
@@ -232,6 +233,46 @@ def handleDetect (hex : String) : String × String :=
     let spec := if f = .osdep then "-" else if f = .hang || bs.isEmpty then "Unknown" else name
     (name, spec ++ "\t" ++ fid)
 
+/-! ### Python binding (C18) -/
+def binToNat (cs : List Char) : Nat := cs.foldl (fun acc c => acc * 2 + (if c = '1' then 1 else 0)) 0
+
+/-- Rust-side value `Kchars` / `R<hex>` / `S<hex>` ↦ what Python shows: i<dec> | s<hex> | f<hex> -/
+def pyValue (v : String) : String :=
+  match v.toList with
+  | 'B' :: cs => "i" ++ toString (binToNat cs)
+  | 'F' :: cs => "s" ++ toHex (cs.map Char.toNat)
+  | 'N' :: cs => "s" ++ toHex (cs.map Char.toNat)
+  | 'R' :: cs => "f" ++ String.ofList cs
+  | 'S' :: cs => "s" ++ (if cs = ['-'] then "" else String.ofList cs)
+  | _ => "?"
+
+open Wellen.Py in
+/-- `pyq <tt> <signal dump>`: all_changes, value_at_idx for 0..n+1, value_at_time around every entry, tt[-1], tt[0] -/
+def handlePyq (tts dump : String) : String × String :=
+  match natList? tts with
+  | none => ("bad-request", "-")
+  | some tt =>
+    let ents : List (Nat × String) := if dump = "-" then [] else
+      (dump.splitOn ",").filterMap fun e => match e.splitOn "=" with
+        | [i, v] => i.toNat?.map fun n => (n, v)
+        | _ => none
+    let idxs := ents.map (·.1)
+    let vals := ents.map (·.2)
+    let arr := idxs.toArray
+    let showV := fun (p : Option Nat) => match p with | some k => pyValue (vals.getD k "?") | none => "n"
+    let n := tt.length
+    let times := (tt.flatMap fun t => [t - 1, t, t + 1]) ++ [0, (tt.getLast?.getD 0) + 10]
+    let times := times.foldl (fun acc t => if acc.contains t then acc else acc ++ [t]) []
+    let mk := fun (ac : List (Nat × Nat)) (vi : Nat → Option Nat) (vt : Nat → Option Nat) =>
+      "AC=" ++ ",".intercalate (ac.map fun (t, p) => s!"{t}:{showV (some p)}") ++
+      ";VI=" ++ ",".intercalate ((List.range (n + 2)).map fun i => showV (vi i)) ++
+      ";VT=" ++ ",".intercalate (times.map fun t => s!"{t}:{showV (vt t)}") ++
+      ";TT=" ++ optNatStr (ttGetItem tt (-1)) ++ "," ++ optNatStr (ttGetItem tt 0) ++ "," ++ optNatStr (ttGetItem tt n) ++ "," ++ optNatStr (ttGetItem tt (-(n : Int)))
+    let m := mk (allChanges tt arr) (valueAtIdx arr) (valueAtTime tt arr)
+    let specAc := (List.range idxs.length).filterMap fun p => (tt[idxs.getD p 0]?).map fun t => (t, p)
+    let sp := mk specAc (latestPos idxs) (specValueAtTime tt idxs)
+    (m, sp)
+
 /-! ### whole VCD bodies -/
 open Wellen.Bits Wellen.Store Wellen.Spec Wellen.VcdBody in
 def parseVars (s : String) : Option (List (List Nat × SigType)) :=
@@ -427,6 +468,7 @@ def handleVcd (opts vars rmap body : String) : String × String :=
 
 def handle (line : String) : String × String :=
   match splitSp line with
+  | ["pyq", tt, dump] => handlePyq tt dump
   | ["detect", hex] => handleDetect hex
   | ["loadseq", n, _, ops] => handleLoadSeq n ops
   | ["fstw", tp, chs] => handleFstw tp chs
